@@ -21,14 +21,18 @@ import numpy as np
 from . import core, pylite_tie
 from .core import Case, cD, cZ, cN, clist, cbool
 from .c09 import (_cloud, _lattice, _distinct_values, _fix_weights, _cd, _cdl, _cdll, _fmt, _same, LAYOUTS,
-                  apply_layout, first_call_args, cast_variant, params_snapshot, weight_patterns, geo_term, geometry_configs)
+                  apply_layout, first_call_args, cast_variant, params_snapshot, weight_patterns, geo_term, geometry_configs, configured, next_mode, _call_args, _COUNTER)
 
 obligations = pylite_tie.c10_obligations   # source-regenerated tie of variance_to_weights (harness/pylite_tie.py, pylite_weights.v.tmpl)
 ID = "C10"
 PROPS_FILE = "Props/C10.v"
 IMPORTS = "From Verde Require Import Lib.QList Model.BlockReduce Model.Weights Model.BlockGeo."
-SHARD = 40
-RULE = ("a fixed geometry stream (c09.geometry_configs: spacings at exact half-integer ratios extent/spacing 0.5, 1.5, 2.5, 4.5 "
+SHARD = 34
+RULE = ("every case of every stream configures the estimator by one of five routes in fixed shares (one fifth each, cycling in generation "
+        "order): constructor arguments; construction with deliberately different options followed by set_params(**all options); the same "
+        "followed by plain attribute assignment of every option; sklearn.base.clone of a configured instance; construction with one or two "
+        "options different (cycling over all options), one filter() call, then those options changed (set_params / assignment alternately) - the "
+        "observed filter() must follow the options in force when it is called and equal a constructor-configured instance bitwise. Streams: a fixed geometry stream (c09.geometry_configs: spacings at exact half-integer ratios extent/spacing 0.5, 1.5, 2.5, 4.5 "
         "independently in both directions, adjust=region and adjust=spacing with non-dividing scalar and (north, east) spacings, shapes; region "
         "given and inferred; 14-point clouds holding the region corners) followed by: BlockMean.filter: clouds of 1..60 points (uniform / clustered / 2-D grids) with pairwise distinct data on a "
         "1/4 lattice in [-30,30] (1..3 components), blocks of one and of many members, no weights or one distinct "
@@ -89,16 +93,15 @@ def probe_ddof(vd):
 # ---------------------------------------------------------------------------
 # BlockMean.filter
 # ---------------------------------------------------------------------------
-def observe_bm(vd, coords, data, weights, kw, tuple1, twice=False):
+def observe_bm(vd, coords, data, weights, kw, tuple1, twice=False, mode="ctor", step=0):
     arrays = list(coords) + list(data) + (list(weights) if weights is not None else [])
     before = [a.tobytes() for a in arrays]
     stale = False
     params_ok = True
     try:
-        bm = vd.BlockMean(**kw)
+        c_, d, w = _call_args(coords, data, weights, tuple1)
+        bm = configured(vd, "BlockMean", dict(kw), mode, step, first=(c_, d, w))
         params = params_snapshot(bm)
-        d = tuple(data) if len(data) != 1 or tuple1 else data[0]
-        w = None if weights is None else (tuple(weights) if len(weights) != 1 else weights[0])
         if twice:
             # the instance has already filtered other data; the result must be that of a fresh instance
             try:
@@ -110,7 +113,7 @@ def observe_bm(vd, coords, data, weights, kw, tuple1, twice=False):
             oc, om, ow = bm.filter(tuple(coords), d, w)
         finally:
             params_ok = params_ok and params_snapshot(bm) == params
-        if twice:
+        if twice or mode != "ctor":
             fresh = vd.BlockMean(**kw).filter(tuple(coords), d, w)
             stale = not _same((tuple(oc), om, ow), (tuple(fresh[0]), fresh[1], fresh[2]))
         res = None
@@ -148,7 +151,10 @@ def make_bm_case(vd, coords, data, weights, kw, kind, expect_valid=True):
     if kw.get("_readonly"):
         for a in list(coords) + list(data) + (list(weights) if weights is not None else []):
             a.flags.writeable = False
-    obs, unchanged, params_ok = observe_bm(vd, coords, data, weights, kwc, bool(kw.get("_tuple1")), bool(kw.get("_twice")))
+    mode, step = kw.get("_mode") or next_mode()
+    if not expect_valid:
+        mode = "ctor"
+    obs, unchanged, params_ok = observe_bm(vd, coords, data, weights, kwc, bool(kw.get("_tuple1")), bool(kw.get("_twice")), mode, step)
     tags = list(kw.get("_layouts") or []) + ["C"] * 16
     tc, td, tw = tags[:len(coords)], tags[len(coords):len(coords) + len(data)], tags[len(coords) + len(data):]
     cw = "None" if weights is None else "(Some %s)" % _cdll(weights)
@@ -167,18 +173,10 @@ def make_bm_case(vd, coords, data, weights, kw, kind, expect_valid=True):
     for v in labels:
         counts[v] = counts.get(v, 0) + 1
     nontrivial = obs[0] == "ok" and len(set(counts.values())) >= 2
-    repro = ("import numpy as np, verde; print(verde.BlockMean(**%r).filter((%s,), (%s,), %s))" % (
-        kwc, ", ".join(_fmt(c, t) for c, t in zip(coords, tc)), ", ".join(_fmt(d, t) for d, t in zip(data, td)),
-        "None" if weights is None else "(%s,)" % ", ".join(_fmt(w, t) for w, t in zip(weights, tw))))
-    if kw.get("_twice"):
-        repro = ("import numpy as np, verde; from harness.c09 import first_call_args; c = (%s,); d = (%s,); w = %s; "
-                 "bm = verde.BlockMean(**%r); p = bm.get_params(); "
-                 "exec('try: bm.filter(*first_call_args(c, d, w, True))\\nexcept Exception as e: print(e)'); "
-                 "print(bm.filter(c, d if len(d) > 1 else d[0], w if w is None or len(w) > 1 else w[0])); "
-                 "print('fresh:', verde.BlockMean(**%r).filter(c, d if len(d) > 1 else d[0], w if w is None or len(w) > 1 else w[0])); "
-                 "print('get_params unchanged:', bm.get_params() == p)" % (
-                     ", ".join(_fmt(c, t) for c, t in zip(coords, tc)), ", ".join(_fmt(d, t) for d, t in zip(data, td)),
-                     "None" if weights is None else "(%s,)" % ", ".join(_fmt(w, t) for w, t in zip(weights, tw)), kwc, kwc))
+    repro = ("import numpy as np; from harness.c09 import replay; replay('BlockMean', None, %r, %r, %d, %r, %r, [%s], [%s], %s)" % (
+        kwc, mode, step, bool(kw.get("_twice")), bool(kw.get("_tuple1")),
+        ", ".join(_fmt(c, t) for c, t in zip(coords, tc)), ", ".join(_fmt(d, t) for d, t in zip(data, td)),
+        "None" if weights is None else "[%s]" % ", ".join(_fmt(w, t) for w, t in zip(weights, tw))))
     inp = {"function": "BlockMean.filter", "kwargs": kwc, "coordinates": [np.asarray(c).tolist() for c in coords],
            "data": [np.asarray(d).tolist() for d in data],
            "weights": None if weights is None else [np.asarray(w).tolist() for w in weights],
@@ -186,7 +184,7 @@ def make_bm_case(vd, coords, data, weights, kw, kind, expect_valid=True):
            "ddof_probed": probe_ddof(vd),
            "dtypes": [str(np.asarray(a).dtype) for a in list(coords) + list(data) + (list(weights) if weights is not None else [])],
            "layouts": kw.get("_layouts"), "instance_reused": bool(kw.get("_twice")),
-           "weight_patterns": kw.get("_wpatterns")}
+           "weight_patterns": kw.get("_wpatterns"), "configured_by": mode, "config_step": step}
     out = [obs[0]] + ([[a.tolist() for a in o] for o in obs[1:]] if obs[0] == "ok" else list(obs[1:])) + [{"inputs_and_params_unchanged": unchanged, "get_params_unchanged": params_ok}]
     return Case(inp, out, term, repro, kind, nontrivial=nontrivial)
 
@@ -519,6 +517,7 @@ def v2w_cases(rnd, vd, count):
 def generate(tier, seed):
     import verde as vd
     _PROBE.clear()
+    _COUNTER[0] = 0
     rnd = random.Random(seed)
     cases = []
     for coords, data, weights, kw, kind in bm_edge_cases(vd):
